@@ -25,7 +25,7 @@ import (
 var spns = map[string]string{"s1": "HTTP/host.test.gokrb5", "s2": "HTTP/host2.test.gokrb5", "sx": "HTTP/host.other.gokrb5"}
 
 // events of the history alphabet
-var alphabet = []string{"login", "ticket:s1", "ticket:s2", "ticket:sx", "adv:+1s", "adv:next-timer", "adv:ticket-end-1s", "adv:ticket-end+1s", "adv:tgt-end+1s", "adv:renew-till+1s", "destroy"}
+var alphabet = []string{"login", "ticket:s1", "ticket:s2", "ticket:sx", "adv:+1s", "adv:next-timer", "adv:ticket-end-1s", "adv:ticket-end+1s", "adv:tgt-end+1s", "adv:renew-till+1s", "adv:elapse-2-lifetimes", "destroy"}
 
 type stepResult struct {
 	Event string
@@ -67,6 +67,20 @@ func advanceTarget(w *cworld.World, kind string) (time.Time, bool) {
 			return best, best.After(now)
 		}
 		return notOnSessionEnd(w, best.Add(time.Second)), true
+	case "elapse-2-lifetimes":
+		if len(w.Client.VerifSessions()) == 0 {
+			return time.Time{}, false
+		}
+		target := now.Add(2*w.Opts.TicketLifetime + 7*time.Second)
+		for _, s := range w.Client.VerifSessions() {
+			// Close to renew-till the renewal intervals shrink geometrically (5/6 of what is left each time); in real
+			// time that ends when the interval drops below a round trip, with a frozen clock it never does. The
+			// event therefore stays a ticket lifetime away from renew-till (the adv:renew-till+1s event jumps over it).
+			if s.RenewTill.After(now) && target.After(s.RenewTill.Add(-w.Opts.TicketLifetime)) {
+				return time.Time{}, false
+			}
+		}
+		return notOnSessionEnd(w, target), true
 	case "tgt-end+1s", "renew-till+1s":
 		var best time.Time
 		for _, s := range w.Client.VerifSessions() {
@@ -192,6 +206,23 @@ func replay(o cworld.Opts, hist []string) ([]stepResult, string, []string) {
 					r.Err = "n/a"
 					res = append(res, r)
 					return // event not applicable in this state: history is not extended
+				}
+				if ev == "adv:elapse-2-lifetimes" {
+					// time passes, it does not jump: every timer on the way fires at its own instant and the
+					// goroutines it wakes run before the next one
+					for n := 0; n < 64; n++ {
+						var next time.Time
+						for _, tm := range vclock.PendingTimers() {
+							if tm.After(vclock.Now()) && tm.Before(t) && (next.IsZero() || tm.Before(next)) {
+								next = tm
+							}
+						}
+						if next.IsZero() {
+							break
+						}
+						vclock.Set(next)
+						vsched.Quiesce()
+					}
 				}
 				vclock.Set(t)
 			case ev == "destroy":
@@ -447,7 +478,7 @@ func Run(c *engine.Ctx) {
 	c.Add("transitions", transitions)
 	c.Add("evaluations", transitions)
 	c.Add("traces_validated_against_impl", transitions)
-	c.Cov["rule"] = "explicit-state BFS over histories on alphabet {login, ticket(s1|s2|other-realm service), advance(+1s | next timer | earliest ticket end -1s/+1s | TGT end +1s | renew-till +1s), destroy}: depth 5 (7 thorough) on three configurations (default; renewable short-lived with the KDC keeping / replacing the session key on renewal), depth 3 (4) on a pairwise-covering set of configurations over 10 settings; referral chains of length 0..12 and a 3-realm referral cycle, against the strict KDC and against KDCs tolerating the known authenticator-crealm finding; canonical state = sessions, cache entries and pending timers relative to the clock; distinct = canonical states"
+	c.Cov["rule"] = "explicit-state BFS over histories on alphabet {login, ticket(s1|s2|other-realm service), advance(+1s | next timer | earliest ticket end -1s/+1s | TGT end +1s | renew-till +1s | two ticket lifetimes elapsing with every timer firing at its own instant), destroy}: depth 5 (7 thorough) on three configurations (default; renewable short-lived with the KDC keeping / replacing the session key on renewal), depth 3 (4) on a pairwise-covering set of configurations over 10 settings; referral chains of length 0..12 and a 3-realm referral cycle, against the strict KDC and against KDCs tolerating the known authenticator-crealm finding; canonical state = sessions, cache entries and pending timers relative to the clock; distinct = canonical states"
 }
 
 // referralChains: chains within the bound succeed with a ticket of the last realm, longer ones and cycles fail
